@@ -8,20 +8,20 @@ package grid
 // client abort after every prefix.
 
 import (
-	"path/filepath"
-	"encoding/binary"
-	"encoding/base64"
-	"crypto/sha256"
-	"net"
-	"runtime/debug"
-	"os"
 	"bytes"
 	"context"
+	"crypto/sha256"
+	"encoding/base64"
+	"encoding/binary"
 	"fmt"
 	"io"
+	"net"
 	"net/http"
 	"net/http/httptest"
+	"os"
+	"path/filepath"
 	"runtime"
+	"runtime/debug"
 	"strings"
 	"testing"
 	"time"
@@ -521,6 +521,32 @@ func (e *c14Env) httpCells() {
 // ByteStream.Write message sequences with a client abort after every prefix.
 func (e *c14Env) writeSequenceCells() {
 	f := e.f
+	// the client marks the end with finish_write and then WAITS for the answer without
+	// half-closing the stream (legal): the handler must answer and release everything
+	for _, z := range []bool{false, true} {
+		for _, split := range []string{"data+finish in one message", "data, then empty finish message"} {
+			z, split := z, split
+			content := vlib.Bytes(fmt.Sprintf("c14/nohalfclose/%s/%v/%s", e.mode, z, split), 5000, false)
+			wire, kind := content, "blobs"
+			if z {
+				wire, kind = vlib.ZstdEncode(content), "compressed-blobs/zstd"
+			}
+			name := fmt.Sprintf("uploads/%s/%s/%s/%d", nextUUID(), kind, vlib.Sha(content), len(content))
+			msgs := []c16Msg{{name: name, data: wire, finish: true}}
+			if split != "data+finish in one message" {
+				msgs = []c16Msg{{name: name, data: wire}, {offset: int64(len(wire)), finish: true}}
+			}
+			id := fmt.Sprintf("%s upload, %s, client does not half-close", kind, split)
+			e.run("ByteStream.Write(no half-close)", id, false, func(ctx context.Context) (bool, string) {
+				r := f.bsWrite(msgs, false)
+				if r.code == codes.DeadlineExceeded {
+					e.rep.Violate("C14 ByteStream.Write handler does not answer after finish_write", id+": no answer within the client deadline although finish_write was sent", nil)
+				}
+				return r.ok, r.code.String()
+			})
+			e.leakCheck("ByteStream.Write(no half-close)", id)
+		}
+	}
 	e.run("ByteStream.Write(sequence)", "no message at all, stream half-closed", true, func(ctx context.Context) (bool, string) {
 		c2, cancel := context.WithTimeout(ctx, 10*time.Second)
 		defer cancel()
